@@ -25,8 +25,12 @@ ASSUMPTIONS = ["the year-range clause of --merge-copyrights is asserted right af
 MIN_NONTRIVIAL = {"quick": 300, "thorough": 15000}
 
 HOLDERS = ["Jane Doe", "Example Corp. <https://example.com>", "Zoë Müller", "ACME, Inc.", "The X Authors", "名前 太郎"]
-LICS = ["MIT", "GPL-3.0-or-later", "Apache-2.0 OR MIT", "0BSD", "LicenseRef-own-1.0", "GPL-2.0-or-later WITH Classpath-exception-2.0"]
-CONTRIBS = ["Ann C", "Bob <bob@example.com>", "Çağrı"]
+LICS = ["MIT", "GPL-3.0-or-later", "Apache-2.0 OR MIT", "0BSD", "LicenseRef-own-1.0", "GPL-2.0-or-later WITH Classpath-exception-2.0",
+        "Apache-2.0 OR (Apache-2.0 AND LicenseRef-extra-terms)"]
+CONTRIBS = ["Ann C", "Bob <bob@example.com>", "Çağrı",
+            # names ending in letters or signs that some comment marker is made of (dnl, REM, c, .., !, %)
+            # (but not in the whole mirrored marker: 'Bang!' under '!', 'Joan of Arc' under Fortran's 'c' are the listed C02 finding)
+            "Mary Holland", "Acme Inc.", "SYSTEM REM", "Ellen"]
 RENDERS_CONTRIB = {None, "custom", "commented"}
 
 
